@@ -206,6 +206,18 @@ fn build(kind: u8, steer: u8, f: &mut Filler, w: &mut World, h: RequestHeader) -
                         .map(|_| {
                             w.fresh += 1;
                             let variable = f.below(3) == 0;
+                            // half of the items are plausible apart from their browse name, so that they get past the checks
+                            if f.bool() {
+                                return AddNodesItem {
+                                    parent_node_id: (if f.bool() { ObjectId::ObjectsFolder.into() } else { w.nodes[f.below(2)].clone() }).into(),
+                                    reference_type_id: if f.bool() { ReferenceTypeId::Organizes.into() } else { ReferenceTypeId::HasComponent.into() },
+                                    requested_new_node_id: if f.bool() { ExpandedNodeId::null() } else { NodeId::new(1, format!("c33-{}-{}-add{}", std::process::id(), w.case_no, w.fresh)).into() },
+                                    browse_name: w.browse_name(f),
+                                    node_class: if variable { NodeClass::Variable } else { NodeClass::Object },
+                                    node_attributes: if variable { variable_attributes(f) } else { object_attributes(f) },
+                                    type_definition: if variable { VariableTypeId::BaseDataVariableType.into() } else { ObjectTypeId::BaseObjectType.into() },
+                                };
+                            }
                             AddNodesItem {
                                 parent_node_id: ExpandedNodeId { node_id: w.pool(f), namespace_uri: UAString::null(), server_index: if f.below(10) == 0 { f.u32() } else { 0 } },
                                 reference_type_id: w.reference_type(f),
@@ -455,6 +467,28 @@ fn run_with(ctx: &Ctx, c: &Case, modify: bool) -> PResult {
         VariableBuilder::new(&w.nodes[2], "int", "int").data_type(DataTypeId::Int32).value(1i32).writable().component_of(w.nodes[1].clone()).insert(&mut a);
         VariableBuilder::new(&w.nodes[3], "str", "str").data_type(DataTypeId::String).value("a€語𝄞z").writable().component_of(w.nodes[1].clone()).insert(&mut a);
     }
+    // a subscription with a data item (queue size 5) and an event item exists from the start, so that the monitored item
+    // and subscription services meet real ids
+    {
+        let h = conn.header(&token);
+        if let SupportedMessage::CreateSubscriptionResponse(r) = conn.call(CreateSubscriptionRequest { request_header: h, requested_publishing_interval: 100.0, requested_lifetime_count: 300, requested_max_keep_alive_count: 10, max_notifications_per_publish: 0, publishing_enabled: true, priority: 0 }) {
+            w.subs.push(r.subscription_id);
+            let h = conn.header(&token);
+            let item = |node: &NodeId, attr: u32, filter: ExtensionObject, q: u32| MonitoredItemCreateRequest {
+                item_to_monitor: ReadValueId { node_id: node.clone(), attribute_id: attr, index_range: UAString::null(), data_encoding: QualifiedName::null() },
+                monitoring_mode: MonitoringMode::Reporting,
+                requested_parameters: MonitoringParameters { client_handle: 1, sampling_interval: 0.0, filter, queue_size: q, discard_oldest: true },
+            };
+            let ev = ExtensionObject::from_encodable(ObjectId::EventFilter_Encoding_DefaultBinary, &EventFilter { select_clauses: Some(vec![SimpleAttributeOperand::new(ObjectTypeId::BaseEventType, "EventId", AttributeId::Value, UAString::null())]), where_clause: ContentFilter { elements: None } });
+            if let SupportedMessage::CreateMonitoredItemsResponse(r) = conn.call(CreateMonitoredItemsRequest { request_header: h, subscription_id: r.subscription_id, timestamps_to_return: TimestampsToReturn::Both, items_to_create: Some(vec![item(&w.nodes[2], 13, ExtensionObject::null(), 5), item(&w.nodes[0], 12, ev, 3)]) }) {
+                for x in r.results.iter().flatten() {
+                    if x.status_code.is_good() {
+                        w.items.push(x.monitored_item_id);
+                    }
+                }
+            }
+        }
+    }
     let mut f = Filler::new(&c.data);
     let mut good_items = false;
     let t0 = chrono::Utc::now() + chrono::Duration::hours(1);
@@ -519,6 +553,12 @@ fn run_with(ctx: &Ctx, c: &Case, modify: bool) -> PResult {
                     SupportedMessage::ReadResponse(r) => {
                         if r.results.iter().flatten().any(|d| d.status.map(|s| s.is_good()).unwrap_or(true)) {
                             good_items = true;
+                        }
+                    }
+                    SupportedMessage::ModifyMonitoredItemsResponse(r) => {
+                        if r.results.iter().flatten().any(|d| d.status_code.is_good()) {
+                            good_items = true;
+                            ctx.class("monitored_item_modified");
                         }
                     }
                     SupportedMessage::CallResponse(r) => {
